@@ -394,7 +394,7 @@ class Engine:
                     continue     # fresh engine symbols
                 v = model[d]
                 if z3.is_string_value(v):
-                    out[n] = v.as_string()
+                    out[n] = T.zstr(v)
                 elif z3.is_int_value(v):
                     out[n] = v.as_long()
                 elif z3.is_true(v) or z3.is_false(v):
